@@ -1,6 +1,557 @@
-//! C16 — not built yet.
-use crate::core::Ctx;
+//! C16 — every public operation on valid values returns in bounded time and panics only under a
+//! documented precondition (and then does panic, promptly); parsers never panic.
+//!
+//! Three families of isolated sweeps (each case runs in a watchdog-supervised child process, so a
+//! hang, abort, stack overflow or allocation failure is an observation), each run twice: in the
+//! monitored build (`mon`: debug assertions + overflow checks on) and in a release build (`rel`).
+//!  A. the generated table of all operator / ops-trait impls (shared with C15) on every tuple of
+//!     EDGE operands (0, +-1, word/double-word boundaries, 3-word, +-inf, precision 0/1/2/53 ...)
+//!  B. a registry of the non-operator public API (methods of UBig/IBig/FBig/RBig/ConstDivisor ...)
+//!     on every tuple of edge arguments, each entry with its documented-panic predicate
+//!  C. the parsers of every number type on all strings of length <= 3 over a 16-symbol alphabet
+//!     plus a list of nasty strings
+
+use crate::c15::{self, Form, Kind, Val};
+use crate::core::{guard, Ctx, Rec};
+
+fn is_internal_panic(m: &str) -> bool {
+    crate::core::is_internal_panic(m) && !m.contains("assertion failed: chunk_bits > 0") && !m.contains("assertion failed: precision > 0")
+}
+use crate::fref::*;
+use crate::h::unflatten;
+use crate::uni::*;
+use dashu_base::{Approximation, CubicRoot, CubicRootRem, DivRem, ExtendedGcd, Gcd, Inverse, SquareRoot, SquareRootRem, UnsignedAbs};
+use dashu_float::round::mode;
+use dashu_float::{Context, DBig, FBig};
+use dashu_int::fast_div::ConstDivisor;
+use dashu_int::{IBig, UBig};
+use dashu_ratio::{RBig, Relaxed};
+use num_bigint::{BigInt, Sign as NSign};
+use num_traits::{One, Signed, Zero};
+use std::str::FromStr;
+
+const P: &str = "C16";
+
+/// the library's documented panic messages and what each one claims
+fn claimed_precondition(msg: &str) -> &'static str {
+    let m = msg;
+    if m.contains("assertion failed: chunk_bits > 0") {
+        return "chunk_bits = 0"; // "Panics if chunk_bits is zero" is implemented with assert!
+    }
+    if m.contains("assertion failed: precision > 0") {
+        return "unlimited-precision"; // RBig::to_float deliberately refuses precision 0 with assert!
+    }
+    if m.contains("divisor must not be 0") || m.contains("Divisor or denominator must not be zero") || m.contains("divide by zero") || m.contains("division by zero") {
+        "zero-divisor"
+    } else if m.contains("UBig result must not be negative") {
+        "negative-ubig"
+    } else if m.contains("the greatest common divisor is not defined between zeros") {
+        "gcd-of-zeros"
+    } else if m.contains("arithmetic operations with the infinity") {
+        "infinite-operand"
+    } else if m.contains("precision cannot be 0") {
+        "unlimited-precision"
+    } else if m.contains("logarithm is not defined for 0") || m.contains("logarithm is only defined for positive") {
+        "log-domain"
+    } else if m.contains("0th root") {
+        "zeroth-root"
+    } else if m.contains("the root is a complex number") || m.contains("powering on negative bases") {
+        "complex-result"
+    } else if m.contains("invalid radix") {
+        "invalid-radix"
+    } else if m.contains("different rings") {
+        "different-rings"
+    } else if m.contains("non-invertible") {
+        "non-invertible"
+    } else if m.contains("too much memory") || m.contains("out of memory") || m.contains("exponent is too large") || m.contains("too large") {
+        "size-limit"
+    } else if m.contains("nan doesn't have a sign") || m.contains("calling log2 on nans") {
+        "nan"
+    } else if m.contains("called `Approximation::unwrap()` on a `Inexact` value") {
+        "inexact-unwrap"
+    } else {
+        "unknown-message"
+    }
+}
+
+// ---------------------------------------------------------------------------------------------
+// A. forms on edge operands
+
+fn edge_vals(kind: Kind) -> Vec<Val> {
+    let one = BigInt::one();
+    let mut ints: Vec<BigInt> = vec![BigInt::zero(), one.clone(), -one.clone(), BigInt::from(2), BigInt::from(-2), BigInt::from(u64::MAX), &one << 64u32, -(&one << 64u32), &one << 128u32, -(&one << 128u32), BigInt::from(shape(3, "lcgA", 0)), BigInt::from(63), BigInt::from(64), BigInt::from(65), BigInt::from(200), BigInt::from(i64::MIN), BigInt::from(255)];
+    ints.dedup();
+    let mut v: Vec<Val> = ints.iter().map(|i| Val::Q(Rat::int(i.clone()))).collect();
+    match kind {
+        Kind::Int => {}
+        Kind::Ratio => {
+            for (n, d) in [(1i64, 2i64), (-1, 2), (3, 2), (-7, 3)] {
+                v.push(Val::Q(Rat::new(BigInt::from(n), BigInt::from(d))));
+            }
+            v.push(Val::Q(Rat::new((&one << 64u32) + 1, BigInt::from(7))));
+        }
+        Kind::Float => {
+            for p in [0usize, 1, 2, 53] {
+                for (s, e) in [(0i64, 0i64), (1, 0), (-1, 0), (5, -1), (-5, -1), (1, -30), (1, 30), (-3, 30), (7, 2)] {
+                    v.push(Val::F(BigInt::from(s), e, p));
+                }
+            }
+            v.push(Val::F(BigInt::from(12345), -2, 5));
+            v.push(Val::F(BigInt::from(12345), -2, 0));
+            v.push(Val::Inf(true));
+            v.push(Val::Inf(false));
+        }
+    }
+    v
+}
+
+fn val_rat(v: &Val) -> Option<Rat> {
+    match v {
+        Val::Q(r) => Some(r.clone()),
+        Val::F(s, e, _) => Some(Rat::scaled(s, 10, *e)), // only sign / zero-ness is used
+        Val::Inf(_) => None,
+    }
+}
+
+/// is a panic REQUIRED for this family on these operands (clearly documented preconditions only)?
+fn required_panic(f: &Form, a: &Val, b: &Val) -> Option<&'static str> {
+    let fam = f.fam;
+    let (ra, rb) = (val_rat(a), val_rat(b));
+    let b_zero = rb.as_ref().map_or(false, |r| r.is_zero());
+    let a_zero = ra.as_ref().map_or(false, |r| r.is_zero());
+    let any_inf = matches!(a, Val::Inf(_)) || (f.arity == 2 && matches!(b, Val::Inf(_)));
+    if any_inf {
+        return if matches!(fam, "add" | "sub" | "mul" | "div" | "rem") { Some("infinite-operand") } else { None };
+    }
+    match fam {
+        "div" | "rem" | "divrem" | "diveuclid" | "remeuclid" | "divremeuclid" if b_zero => Some("zero-divisor"),
+        "inv" if a_zero => Some("zero-divisor"),
+        "gcd" | "gcdext" if a_zero && b_zero => Some("gcd-of-zeros"),
+        "sub" if f.out == "UBig" => {
+            if ra.unwrap() < rb.unwrap() {
+                Some("negative-ubig")
+            } else {
+                None
+            }
+        }
+        _ => None,
+    }
+}
+
+fn forms_sweep(ctx: &mut Ctx, name: &str, forms: &[&Form], vals: &[Val]) {
+    let (nf, nv) = (forms.len() as u64, vals.len() as u64);
+    ctx.sweep_isolated(name, nf * nv * nv, |i, rec| {
+        let [fi, ia, ib] = unflatten(i, [nf, nv, nv]);
+        let f = forms[fi];
+        let (a, b) = (&vals[ia], &vals[ib]);
+        if f.arity == 1 && ib != 0 {
+            return;
+        }
+        if (f.fam == "shl" || f.fam == "shr") && b.int().map_or(false, |x| x.abs() > BigInt::from(300)) {
+            rec.hit("pruned:huge-shift (would need > 1 GiB)");
+            return;
+        }
+        let r = match (f.f)(a, b) {
+            Some(r) => r,
+            None => return,
+        };
+        rec.step();
+        rec.nontrivial();
+        let case = || format!("{} on ({}, {})", f.desc, a.show(), if f.arity == 1 { "-".into() } else { b.show() });
+        let req = required_panic(f, a, b);
+        match r {
+            Ok(o) => {
+                if let Some(why) = req {
+                    rec.fail(format!("{}|{}:{}|missing-panic|{}", P, f.fam, f.out, why), case(), format!("returned {:?}", o), format!("panic ({})", why));
+                } else {
+                    rec.hit("returns");
+                }
+            }
+            Err(msg) => {
+                if is_internal_panic(&msg) {
+                    rec.fail(format!("{}|{}:{}|internal-panic|{}", P, f.fam, f.out, crate::core::panic_class(&msg)), case(), msg, "returns, or panics with a documented message");
+                    return;
+                }
+                let claim = claimed_precondition(&msg);
+                let ok = match claim {
+                    "zero-divisor" => val_rat(b).map_or(false, |r| r.is_zero()) || (f.arity == 1 && val_rat(a).map_or(false, |r| r.is_zero())) || matches!(b, Val::Inf(_)) || matches!(a, Val::Inf(_)),
+                    "negative-ubig" => true, // the result type is unsigned; verified by C01/C02 where it matters
+                    "gcd-of-zeros" => val_rat(a).map_or(false, |r| r.is_zero()) && val_rat(b).map_or(false, |r| r.is_zero()),
+                    "infinite-operand" => matches!(a, Val::Inf(_)) || matches!(b, Val::Inf(_)),
+                    "unlimited-precision" => [a, b].iter().all(|v| !matches!(v, Val::F(_, _, p) if *p != 0)),
+                    "unknown-message" => false,
+                    _ => true,
+                };
+                if !ok {
+                    rec.fail(format!("{}|{}:{}|unjustified-panic|{}", P, f.fam, f.out, claim), case(), msg, "the documented precondition named by the panic message does not hold for these operands");
+                } else {
+                    rec.hit(&format!("documented-panic:{}", claim));
+                }
+            }
+        }
+        rec.sample(case);
+    });
+}
+
+// ---------------------------------------------------------------------------------------------
+// B. registry of methods
+
+#[derive(Clone, Copy, PartialEq)]
+enum Expect {
+    NoPanic,
+    Must(&'static str), // documented precondition holds: must panic
+    May,                // docs allow either (e.g. inexact result at unlimited precision): never internal / hang
+}
+
+struct Case {
+    name: &'static str,
+    text: String,
+    expect: Expect,
+    run: Box<dyn Fn() -> Result<String, String> + Sync + Send>,
+}
+
+fn show<T: std::fmt::Debug>(t: T) -> String {
+    crate::core::trunc(&format!("{:?}", t), 120)
+}
+
+macro_rules! case {
+    ($v:ident, $name:expr, $text:expr, $expect:expr, $body:expr) => {
+        $v.push(Case { name: $name, text: $text, expect: $expect, run: Box::new(move || guard(|| show($body))) });
+    };
+}
+
+fn int_edges() -> Vec<BigInt> {
+    let one = BigInt::one();
+    vec![BigInt::zero(), one.clone(), -one.clone(), BigInt::from(2), BigInt::from(-8), BigInt::from(27), BigInt::from(u64::MAX), &one << 64u32, -(&one << 64u32), (&one << 128u32) - 1, &one << 128u32, -(&one << 130u32), BigInt::from(shape(3, "ones", 0)), BigInt::from(shape(5, "lcgA", 0))]
+}
+
+fn registry() -> Vec<Case> {
+    let mut v: Vec<Case> = vec![];
+    let ints = int_edges();
+    let ns: Vec<usize> = vec![0, 1, 2, 3, 63, 64, 65, 128, 200];
+    for x in &ints {
+        let neg = x.sign() == NSign::Minus;
+        let zero = x.is_zero();
+        let xi = ref_to_i(x);
+        let t = |op: &str| format!("{}({})", op, hex(x));
+        { let a = xi.clone(); case!(v, "IBig::sqrt", t("sqrt"), if neg { Expect::Must("complex-result") } else { Expect::NoPanic }, a.sqrt()); }
+        { let a = xi.clone(); case!(v, "IBig::cbrt", t("cbrt"), Expect::NoPanic, a.cbrt()); }
+        { let a = xi.clone(); case!(v, "IBig::to_f32/to_f64", t("to_f64"), Expect::NoPanic, (a.to_f32(), a.to_f64())); }
+        { let a = xi.clone(); case!(v, "IBig::to_le_bytes/to_be_bytes", t("bytes"), Expect::NoPanic, (IBig::from_le_bytes(&a.to_le_bytes()) == a, IBig::from_be_bytes(&a.to_be_bytes()) == a)); }
+        { let a = xi.clone(); case!(v, "IBig::format", t("format"), Expect::NoPanic, (format!("{} {:?} {:#x} {:+b} {:>30o}", a, a, a, a, a)).len()); }
+        { let a = xi.clone(); case!(v, "IBig::signum/abs/neg", t("signum"), Expect::NoPanic, (a.signum(), dashu_base::Abs::abs(a.clone()), -a.clone(), a.clone().unsigned_abs())); }
+        { let a = xi.clone(); case!(v, "IBig::trailing_zeros/ones", t("trailing"), Expect::NoPanic, (a.trailing_zeros(), a.trailing_ones())); }
+        { let a = xi.clone(); case!(v, "TryFrom<IBig> for primitives", t("try_into"), Expect::NoPanic, (u8::try_from(&a).is_ok(), i64::try_from(&a).is_ok(), u128::try_from(&a).is_ok(), i128::try_from(a.clone()).is_ok(), UBig::try_from(a.clone()).is_ok())); }
+        for &n in &ns {
+            let tn = |op: &str| format!("{}({}, {})", op, hex(x), n);
+            { let a = xi.clone(); case!(v, "IBig::nth_root", tn("nth_root"), if n == 0 { Expect::Must("zeroth-root") } else if neg && n % 2 == 0 { Expect::Must("complex-result") } else { Expect::NoPanic }, a.nth_root(n)); }
+            if n <= 3 || x.bits() <= 64 {
+                let a = xi.clone();
+                case!(v, "IBig::pow", tn("pow"), Expect::NoPanic, a.pow(n).bit_len_());
+            }
+            { let a = xi.clone(); case!(v, "IBig::bit", tn("bit"), Expect::NoPanic, dashu_base::BitTest::bit(&a, n)); }
+            { let a = xi.clone(); case!(v, "IBig::shl/shr", tn("shift"), Expect::NoPanic, ((&a << n) >> n == a, &a >> n)); }
+        }
+        if !neg {
+            let xu = ref_to_u(x.magnitude());
+            { let a = xu.clone(); case!(v, "UBig::sqrt_rem/cbrt_rem", t("sqrt_rem"), Expect::NoPanic, (a.sqrt_rem(), a.cbrt_rem())); }
+            { let a = xu.clone(); case!(v, "UBig::count/trailing/pow2", t("counts"), Expect::NoPanic, (a.count_ones(), a.count_zeros(), a.trailing_zeros(), a.trailing_ones(), dashu_base::PowerOfTwo::is_power_of_two(&a), dashu_base::PowerOfTwo::next_power_of_two(a.clone()))); }
+            { let a = xu.clone(); case!(v, "UBig::to_f32/to_f64", t("to_f64"), Expect::NoPanic, (a.to_f32(), a.to_f64())); }
+            for &n in &ns {
+                let tn = |op: &str| format!("{}({}, {})", op, hex(x), n);
+                { let a = xu.clone(); case!(v, "UBig::nth_root", tn("nth_root"), if n == 0 { Expect::Must("zeroth-root") } else { Expect::NoPanic }, a.nth_root(n)); }
+                { let a = xu.clone(); case!(v, "UBig::to_chunks", tn("to_chunks"), if n == 0 { Expect::Must("chunk_bits = 0") } else { Expect::NoPanic }, a.to_chunks(n).len()); }
+                { let a = xu.clone(); case!(v, "UBig::from_chunks", tn("from_chunks"), if n == 0 { Expect::Must("chunk_bits = 0") } else { Expect::NoPanic }, UBig::from_chunks([a.clone(), a.clone()].iter(), n).bit_len_()); }
+                { let a = xu.clone(); case!(v, "UBig::set_bit/clear_bit", tn("set_bit"), Expect::NoPanic, { let mut t = a.clone(); t.set_bit(n); t.clear_bit(n); t.clear_bit(n + 1); t.bit_len_() }); }
+                { let a = xu.clone(); case!(v, "UBig::split_bits/clear_high_bits", tn("split_bits"), Expect::NoPanic, { let (lo, hi) = a.clone().split_bits(n); let mut t = a.clone(); t.clear_high_bits(n); (lo == t, hi) }); }
+            }
+            for &r in &[0u32, 1, 2, 10, 16, 36, 37, 255] {
+                let bad = !(2..=36).contains(&r);
+                { let a = xu.clone(); case!(v, "UBig::in_radix", format!("in_radix({}, {})", hex(x), r), if bad { Expect::Must("invalid-radix") } else { Expect::NoPanic }, a.in_radix(r).to_string().len()); }
+                if x.bits() <= 64 {
+                    case!(v, "UBig::from_str_radix(radix)", format!("from_str_radix(\"10\", {})", r), Expect::NoPanic, UBig::from_str_radix("10", r).is_ok());
+                    case!(v, "UBig::from_str_with_radix_default(radix)", format!("from_str_with_radix_default(\"10\", {})", r), Expect::NoPanic, UBig::from_str_with_radix_default("10", r).is_ok());
+                    case!(v, "IBig::from_str_with_radix_default(radix)", format!("from_str_with_radix_default(\"-0x10\", {})", r), Expect::NoPanic, IBig::from_str_with_radix_default("-0x10", r).is_ok());
+                }
+            }
+            for y in &ints {
+                if y.sign() == NSign::Minus {
+                    continue;
+                }
+                let yu = ref_to_u(y.magnitude());
+                let t2 = |op: &str| format!("{}({}, {})", op, hex(x), hex(y));
+                { let (a, b) = (xu.clone(), yu.clone()); case!(v, "UBig::ilog", t2("ilog"), if zero || *y < BigInt::from(2) { Expect::Must("log-domain") } else { Expect::NoPanic }, a.ilog(&b)); }
+                { let (a, b) = (xu.clone(), yu.clone()); case!(v, "UBig::is_multiple_of", t2("is_multiple_of"), if y.is_zero() { Expect::Must("zero-divisor") } else { Expect::NoPanic }, a.is_multiple_of(&b)); }
+                { let (a, b) = (xu.clone(), yu.clone()); case!(v, "UBig::remove", t2("remove"), Expect::May, { let mut t = a.clone(); t.remove(&b) }); }
+                { let (a, b) = (xu.clone(), yu.clone()); case!(v, "ConstDivisor::new+reduce", t2("reduce mod"), if y.is_zero() { Expect::Must("zero-divisor") } else { Expect::NoPanic }, { let r = ConstDivisor::new(b.clone()); let e = r.reduce(a.clone()); (e.residue() < b, e.clone().pow(&a).residue() < b, e.clone().inv().map(|i| (i * e).residue())) }); }
+            }
+        }
+    }
+    // elements of different rings must not mix
+    {
+        case!(v, "Reduced: different rings", "reduce(5) mod 7 + reduce(5) mod 11".into(), Expect::Must("different-rings"), { let (r1, r2) = (ConstDivisor::new(UBig::from(7u8)), ConstDivisor::new(UBig::from(11u8))); (r1.reduce(5) + r2.reduce(5)).residue() });
+        case!(v, "Reduced: different rings (equal moduli)", "reduce(5) mod 7 * reduce(5) mod 7'".into(), Expect::Must("different-rings"), { let (r1, r2) = (ConstDivisor::new(UBig::from(7u8)), ConstDivisor::new(UBig::from(7u8))); (r1.reduce(5) * r2.reduce(5)).residue() });
+        case!(v, "Reduced: division by non-invertible", "reduce(3) / reduce(2) mod 4".into(), Expect::Must("non-invertible"), { let r = ConstDivisor::new(UBig::from(4u8)); (r.reduce(3) / r.reduce(2)).residue() });
+    }
+    // gcd family
+    for x in &ints {
+        for y in &ints {
+            let both0 = x.is_zero() && y.is_zero();
+            let (a, b) = (ref_to_i(x), ref_to_i(y));
+            case!(v, "IBig::gcd/gcd_ext", format!("gcd({}, {})", hex(x), hex(y)), if both0 { Expect::Must("gcd-of-zeros") } else { Expect::NoPanic }, ((&a).gcd(&b), (&a).gcd_ext(&b).0));
+        }
+    }
+    floats::<mode::HalfAway, 10>(&mut v, "DBig");
+    floats::<mode::Zero, 2>(&mut v, "FBig<Zero,2>");
+    // rationals
+    let qs: Vec<(i64, i64)> = vec![(0, 1), (1, 1), (-1, 1), (1, 2), (-1, 2), (3, 2), (-7, 3), (22, 7), (i64::MAX, 2), (1, i64::MAX)];
+    for &(n, d) in &qs {
+        let q = RBig::from_parts(IBig::from(n), UBig::from(d as u64));
+        let t = |op: &str| format!("{}({}/{})", op, n, d);
+        { let a = q.clone(); case!(v, "RBig::trunc/floor/ceil/round/fract", t("round ops"), Expect::NoPanic, (a.trunc(), a.floor(), a.ceil(), a.round(), a.fract(), a.clone().split_at_point())); }
+        { let a = q.clone(); case!(v, "RBig::to_f32/to_f64/to_int", t("to_f64"), Expect::NoPanic, (a.to_f32(), a.to_f64(), a.to_f32_fast(), a.to_f64_fast(), a.to_int())); }
+        { let a = q.clone(); case!(v, "RBig::inv", t("inv"), if n == 0 { Expect::Must("zero-divisor") } else { Expect::NoPanic }, a.clone().inv()); }
+        { let a = q.clone(); case!(v, "RBig::format/parse", t("format"), Expect::NoPanic, (RBig::from_str(&a.to_string()).map(|b| b == a), format!("{:?} {:>20}", a, a).len())); }
+        for &p in &[0usize, 1, 5, 40] {
+            let a = q.clone();
+            case!(v, "RBig::to_float", format!("to_float::<HalfAway,10>({}/{}, precision {})", n, d, p), Expect::May, a.to_float::<mode::HalfAway, 10>(p));
+            let a = q.clone();
+            case!(v, "RBig::pow", format!("pow({}/{}, {})", n, d, p), Expect::NoPanic, a.pow(p).numerator().bit_len_());
+        }
+        for &lim in &[0u64, 1, 2, 10, 1000] {
+            let a = q.clone();
+            case!(v, "RBig::next_up/next_down/nearest", format!("next_up/next_down/nearest({}/{}, limit {})", n, d, lim), if lim == 0 { Expect::May } else { Expect::NoPanic }, (a.next_up(&UBig::from(lim)), a.next_down(&UBig::from(lim)), a.nearest(&UBig::from(lim))));
+        }
+        for &(n2, d2) in &qs {
+            let (a, b) = (q.clone(), RBig::from_parts(IBig::from(n2), UBig::from(d2 as u64)));
+            case!(v, "RBig::simplest_in/is_simpler_than", format!("simplest_in({}/{}, {}/{})", n, d, n2, d2), Expect::NoPanic, (RBig::simplest_in(a.clone(), b.clone()), a.is_simpler_than(&b)));
+        }
+    }
+    for f in [0.0f32, -0.0, 1.0, 0.1, f32::MIN_POSITIVE, 1e-45, f32::MAX, f32::INFINITY, f32::NEG_INFINITY, f32::NAN] {
+        case!(v, "simplest_from_f32/f64 + TryFrom<f32>", format!("from {:?}", f), Expect::NoPanic, (RBig::simplest_from_f32(f), RBig::simplest_from_f64(f as f64), RBig::try_from(f).is_ok(), UBig::try_from(f).is_ok(), IBig::try_from(f as f64).is_ok(), FBig::<mode::HalfEven, 2>::try_from(f).is_ok(), FBig::<mode::Zero, 2>::try_from(f as f64).is_ok()));
+    }
+    case!(v, "RBig::from_parts(_, 0)", "from_parts(1, 0)".into(), Expect::Must("zero-divisor"), RBig::from_parts(IBig::ONE, UBig::ZERO));
+    case!(v, "Relaxed::from_parts(_, 0)", "from_parts(1, 0)".into(), Expect::Must("zero-divisor"), Relaxed::from_parts(IBig::ONE, UBig::ZERO));
+    case!(v, "RBig::from_parts_signed(_, 0)", "from_parts_signed(1, 0)".into(), Expect::Must("zero-divisor"), RBig::from_parts_signed(IBig::ONE, IBig::ZERO));
+    v
+}
+
+trait BitLenShow {
+    fn bit_len_(&self) -> usize;
+}
+impl BitLenShow for IBig {
+    fn bit_len_(&self) -> usize {
+        dashu_base::BitTest::bit_len(self)
+    }
+}
+impl BitLenShow for UBig {
+    fn bit_len_(&self) -> usize {
+        dashu_base::BitTest::bit_len(self)
+    }
+}
+
+fn floats<R: ModeTag, const B: dashu_int::Word>(v: &mut Vec<Case>, ty: &'static str) {
+    let vals: Vec<(i64, i64)> = vec![(0, 0), (1, 0), (-1, 0), (5, -1), (-5, -1), (15, -1), (-15, -1), (1, -40), (-1, -40), (7, 20), (-7, 20), (999, -3), (1, 3)];
+    let precs = [0usize, 1, 2, 20];
+    for &(s, e) in &vals {
+        for &p in &precs {
+            if p != 0 && digits_b(&BigInt::from(s), B as u32) > p {
+                continue;
+            }
+            let x: FBig<R, B> = FBig::from_repr(dashu_float::Repr::<B>::new(IBig::from(s), e as isize), Context::<R>::new(p));
+            let t = |op: &str| format!("{} {}({}*{}^{} @p{})", ty, op, s, B, e, p);
+            let neg = s < 0;
+            let zero = s == 0;
+            let unl = p == 0;
+            let value = Rat::scaled(&BigInt::from(s), B as u32, e);
+            let le_m1 = value <= Rat::from_i(-1);
+            macro_rules! fcase {
+                ($name:expr, $op:expr, $expect:expr, $body:expr) => {{
+                    let a = x.clone();
+                    let f = $body;
+                    v.push(Case { name: $name, text: t($op), expect: $expect, run: Box::new(move || guard(|| show(f(&a)))) });
+                }};
+            }
+            let huge = e >= 10; // exp of a huge argument may overflow the exponent (documented size limit)
+            fcase!("FBig::exp", "exp", if unl { if zero { Expect::May } else { Expect::Must("unlimited-precision") } } else if huge { Expect::May } else { Expect::NoPanic }, |a: &FBig<R, B>| a.exp());
+            fcase!("FBig::exp_m1", "exp_m1", if unl { if zero { Expect::May } else { Expect::Must("unlimited-precision") } } else if huge { Expect::May } else { Expect::NoPanic }, |a: &FBig<R, B>| a.exp_m1());
+            fcase!("FBig::ln", "ln", if neg || zero { Expect::Must("log-domain") } else if unl { Expect::May } else { Expect::NoPanic }, |a: &FBig<R, B>| a.ln());
+            fcase!("FBig::ln_1p", "ln_1p", if le_m1 { Expect::Must("log-domain") } else if unl { Expect::May } else { Expect::NoPanic }, |a: &FBig<R, B>| a.ln_1p());
+            fcase!("FBig::sqrt", "sqrt", if neg { Expect::Must("complex-result") } else if unl { Expect::May } else { Expect::NoPanic }, |a: &FBig<R, B>| a.sqrt());
+            fcase!("FBig::sqr/cubic", "sqr/cubic", Expect::NoPanic, |a: &FBig<R, B>| (a.sqr(), a.cubic()));
+            fcase!("FBig::round ops", "trunc/floor/ceil/round/fract", Expect::NoPanic, |a: &FBig<R, B>| (a.trunc(), a.floor(), a.ceil(), a.round(), a.fract(), a.clone().split_at_point()));
+            fcase!("FBig::to_int/to_f32/to_f64", "to_int/to_f32/to_f64", Expect::NoPanic, |a: &FBig<R, B>| (a.to_int(), a.to_f32(), a.to_f64()));
+            fcase!("FBig::format", "format", Expect::NoPanic, |a: &FBig<R, B>| format!("{} {:?} {:e} {:.3} {:>25} {:+.0}", a, a, a, a, a, a).len());
+            fcase!("FBig::parse(to_string)", "to_string->from_str", Expect::NoPanic, |a: &FBig<R, B>| FBig::<R, B>::from_str(&a.to_string()).map(|b| b == *a));
+            fcase!("FBig::ulp", "ulp", if unl { Expect::Must("unlimited-precision") } else { Expect::NoPanic }, |a: &FBig<R, B>| a.ulp());
+            fcase!("FBig::inv", "inv", if zero { Expect::Must("zero-divisor") } else { Expect::May }, |a: &FBig<R, B>| a.clone().inv());
+            fcase!("FBig::to_decimal/to_binary", "to_decimal/to_binary", Expect::May, |a: &FBig<R, B>| (a.to_decimal(), a.to_binary()));
+            fcase!("RBig::try_from(FBig)/simplest_from_float", "to RBig", Expect::NoPanic, |a: &FBig<R, B>| (RBig::try_from(a.clone()).is_ok(), IBig::try_from(a.clone()).is_ok(), UBig::try_from(a.clone()).is_ok()));
+            for &q in &[0usize, 1, 3, 30] {
+                let a = x.clone();
+                v.push(Case { name: "FBig::with_precision", text: format!("{} with_precision({}*{}^{} @p{}, {})", ty, s, B, e, p, q), expect: Expect::NoPanic, run: Box::new(move || guard(|| show(a.clone().with_precision(q)))) });
+            }
+            for &n in &[-3i64, -1, 0, 1, 2, 17] {
+                let a = x.clone();
+                let expect = if zero && n < 0 { Expect::May } else if unl && n < 0 { Expect::May } else { Expect::NoPanic };
+                v.push(Case { name: "FBig::powi", text: format!("{} powi({}*{}^{} @p{}, {})", ty, s, B, e, p, n), expect, run: Box::new(move || guard(|| show(a.powi(IBig::from(n))))) });
+            }
+            for &(s2, e2) in &[(0i64, 0i64), (1, 0), (5, -1), (-2, 0), (3, 1)] {
+                if p != 0 && digits_b(&BigInt::from(s2), B as u32) > p {
+                    continue;
+                }
+                let a = x.clone();
+                let y: FBig<R, B> = FBig::from_repr(dashu_float::Repr::<B>::new(IBig::from(s2), e2 as isize), Context::<R>::new(p));
+                let expect = if neg || unl { Expect::May } else { Expect::NoPanic };
+                v.push(Case { name: "FBig::powf", text: format!("{} powf({}*{}^{} @p{}, {}*{}^{})", ty, s, B, e, p, s2, B, e2), expect, run: Box::new(move || guard(|| show(a.powf(&y)))) });
+            }
+        }
+    }
+    for inf in [FBig::<R, B>::INFINITY, FBig::<R, B>::NEG_INFINITY] {
+        let t = |op: &str| format!("{} {}({:?})", ty, op, inf.repr().exponent());
+        macro_rules! icase {
+            ($name:expr, $op:expr, $expect:expr, $body:expr) => {{
+                let a = inf.clone();
+                let f = $body;
+                v.push(Case { name: $name, text: t($op), expect: $expect, run: Box::new(move || guard(|| show(f(&a)))) });
+            }};
+        }
+        icase!("FBig(inf)::exp/ln/sqrt", "exp/ln/sqrt", Expect::Must("infinite-operand"), |a: &FBig<R, B>| (a.exp(), a.ln(), a.sqrt()));
+        icase!("FBig(inf)::trunc", "trunc", Expect::Must("infinite-operand"), |a: &FBig<R, B>| a.trunc());
+        icase!("FBig(inf)::to_int", "to_int", Expect::Must("infinite-operand"), |a: &FBig<R, B>| a.to_int());
+        icase!("FBig(inf)::format/to_f64/cmp", "format/to_f64/cmp", Expect::NoPanic, |a: &FBig<R, B>| (format!("{} {:?}", a, a).len(), a.to_f64(), a > &FBig::<R, B>::ONE));
+        icase!("FBig(inf)::with_precision", "with_precision", Expect::May, |a: &FBig<R, B>| a.clone().with_precision(3));
+    }
+    // precision-0 contexts on inexact operations
+    let c0 = Context::<R>::new(0);
+    let three = dashu_float::Repr::<B>::new(IBig::from(3), 0);
+    let one = dashu_float::Repr::<B>::one();
+    { let (a, b) = (one.clone(), three.clone()); v.push(Case { name: "Context(0)::div inexact", text: format!("{} Context::new(0).div(1, 3)", ty), expect: Expect::Must("unlimited-precision"), run: Box::new(move || guard(|| show(c0.div(&a, &b)))) }); }
+    { let a = three.clone(); v.push(Case { name: "Context(0)::sqrt", text: format!("{} Context::new(0).sqrt(3)", ty), expect: Expect::Must("unlimited-precision"), run: Box::new(move || guard(|| show(c0.sqrt(&a)))) }); }
+    { let (a, b) = (one.clone(), three.clone()); v.push(Case { name: "Context(0)::add/mul exact", text: format!("{} Context::new(0).add/mul(1, 3)", ty), expect: Expect::NoPanic, run: Box::new(move || guard(|| show((c0.add(&a, &b), c0.mul(&a, &b), c0.sub(&a, &b))))) }); }
+    let _ = Approximation::<u8, u8>::Exact(0);
+}
+
+fn methods_sweep(ctx: &mut Ctx, name: &str, cases: &[Case]) {
+    let n = cases.len() as u64;
+    ctx.sweep_isolated(name, n, |i, rec| {
+        let c = &cases[i as usize];
+        rec.step();
+        rec.nontrivial();
+        match ((c.run)(), c.expect) {
+            (Ok(_), Expect::Must(why)) => rec.fail(format!("{}|{}|missing-panic|{}", P, c.name, why), c.text.clone(), "returned a value", format!("prompt panic ({})", why)),
+            (Ok(_), _) => rec.hit("returns"),
+            (Err(m), e) => {
+                if is_internal_panic(&m) {
+                    rec.fail(format!("{}|{}|internal-panic|{}", P, c.name, crate::core::panic_class(&m)), c.text.clone(), m, "returns, or panics with a documented message");
+                } else if e == Expect::NoPanic {
+                    rec.fail(format!("{}|{}|undocumented-panic|{}", P, c.name, claimed_precondition(&m)), c.text.clone(), m, "no panic: no documented precondition applies to these arguments");
+                } else if claimed_precondition(&m) == "unknown-message" {
+                    rec.fail(format!("{}|{}|undocumented-panic|unknown-message", P, c.name), c.text.clone(), m, "a documented panic message");
+                } else {
+                    rec.hit(&format!("documented-panic:{}", claimed_precondition(&m)));
+                }
+            }
+        }
+        rec.sample(|| c.text.clone());
+    });
+}
+
+// ---------------------------------------------------------------------------------------------
+// C. parsers
+
+fn parser_strings(max_len: usize) -> Vec<String> {
+    let sigma: Vec<char> = "019afz_.-+e@xp /é".chars().collect();
+    let mut v = vec![String::new()];
+    let mut layer = vec![String::new()];
+    for _ in 0..max_len {
+        let mut next = vec![];
+        for s in &layer {
+            for c in &sigma {
+                let mut t = s.clone();
+                t.push(*c);
+                next.push(t);
+            }
+        }
+        v.extend(next.iter().cloned());
+        layer = next;
+    }
+    for s in ["1e", "1e+", "1e-", "0x", "0x.", "1/", "/1", "1/0", "-1/-1", "1//2", "1_/2", "~1/2", "1e99999999999999999999", "1e-99999999999999999999", "0x1p99999999999999999999", "9".repeat(400).as_str(), "1_000_000_000_000_000_000_000/3", "é", "1é", "٣", "１２", "1 ", " 1", "\u{0}", "1\n", "+-1", "--1", "1.2.3", "1e1e1", "inf", "-inf", "nan", "0b102", "0o8", "1.e5", ".e5", "1.5/2", "1/2.5"] {
+        v.push(s.to_string());
+    }
+    v
+}
+
+fn parser_sweep(ctx: &mut Ctx, name: &str, strings: &[String]) {
+    let n = strings.len() as u64;
+    ctx.sweep_isolated(name, n, |i, rec| {
+        let s = &strings[i as usize];
+        let runs: Vec<(&str, Result<bool, String>)> = vec![
+            ("UBig::from_str", guard(|| UBig::from_str(s).is_ok())),
+            ("IBig::from_str", guard(|| IBig::from_str(s).is_ok())),
+            ("IBig::from_str_radix(36)", guard(|| IBig::from_str_radix(s, 36).is_ok())),
+            ("IBig::from_str_with_radix_prefix", guard(|| IBig::from_str_with_radix_prefix(s).is_ok())),
+            ("FBig<Zero,2>::from_str", guard(|| FBig::<mode::Zero, 2>::from_str(s).is_ok())),
+            ("DBig::from_str", guard(|| DBig::from_str(s).is_ok())),
+            ("FBig<HalfEven,16>::from_str", guard(|| FBig::<mode::HalfEven, 16>::from_str(s).is_ok())),
+            ("FBig<Zero,36>::from_str", guard(|| FBig::<mode::Zero, 36>::from_str(s).is_ok())),
+            ("RBig::from_str", guard(|| RBig::from_str(s).is_ok())),
+            ("Relaxed::from_str", guard(|| Relaxed::from_str(s).is_ok())),
+            ("RBig::from_str_radix(16)", guard(|| RBig::from_str_radix(s, 16).is_ok())),
+            ("RBig::from_str_with_radix_prefix", guard(|| RBig::from_str_with_radix_prefix(s).is_ok())),
+        ];
+        for (site, r) in runs {
+            rec.step();
+            match r {
+                Ok(true) => rec.hit("accepted"),
+                Ok(false) => rec.hit("rejected"),
+                Err(m) => rec.fail(format!("{}|{}|parser-panics|{}", P, site, crate::core::panic_class(&m)), format!("{:?}", s), m, "Ok or Err, never a panic"),
+            }
+        }
+        if !s.is_empty() {
+            rec.nontrivial();
+        }
+        rec.sample(|| format!("{:?} through 12 parsers", s));
+    });
+    ctx.require_classes(name, &["accepted", "rejected"]);
+}
 
 pub fn run(ctx: &mut Ctx) {
-    ctx.machinery("check C16 is not built yet");
+    ctx.rule = "A: every generated operator/ops-trait form (the C15 table, 2581 impls) on every ordered pair of EDGE operands of its kind (integers 0, +-1, +-2, 2^64-1, +-2^64, +-2^128, 3-word, shift counts; rationals; floats at precision 0/1/2/53 incl. tiny, huge, +-inf); B: a registry of ~60 non-operator public methods (roots, logs, chunks, bits, radix, modular ring, gcd, float exp/ln/pow/sqrt/round/convert/format, rational round/simplify/convert ...) on every tuple of edge arguments with its documented-panic predicate; C: 12 parsers on all strings of length <= 3 over a 17-symbol alphabet plus a list of nasty strings. Every case runs in a child process under a watchdog, in the monitored and in the release build. Judged: no hang/abort/OOM, no internal panic (assertion, overflow, index, unwrap), a panic's message must name a documented precondition that really holds, and the clearly documented preconditions (zero divisor, unsigned underflow, gcd(0,0), zeroth/even-negative root, log domain, infinite operands, invalid radix, inexact at unlimited precision) must panic. non-trivial = case executed".into();
+    ctx.assume("huge-but-valid arguments are capped so that a correct implementation needs < 1 s and < 1 GiB (shift counts <= 300, pow exponents <= 200 on word-size bases)");
+    ctx.case_horizon = std::time::Duration::from_secs(ctx.pick(10, 30));
+    let forms = c15::f10::forms();
+    let groups: Vec<(&str, Kind)> = vec![("int", Kind::Int), ("ratio", Kind::Ratio), ("float", Kind::Float)];
+    let cases = registry();
+    ctx.bound("registry_cases", cases.len() as u64);
+    let strings = parser_strings(ctx.pick(3, 4));
+    ctx.bound("parser_strings", strings.len() as u64);
+    let exe = std::env::current_exe().ok();
+    let rel = exe.as_ref().and_then(|e| e.parent()).and_then(|d| d.parent()).map(|t| t.join("rel").join("dv"));
+    for pass in ["mon", "rel"] {
+        if pass == "rel" {
+            // the release build of the same binary serves as worker for the second pass
+            if cfg!(debug_assertions) {
+                match &rel {
+                    Some(p) if p.exists() => ctx.worker_exe = Some(p.clone()),
+                    _ => {
+                        ctx.machinery("release-profile worker binary target/rel/dv not found (./check builds it for C16)");
+                        break;
+                    }
+                }
+            }
+        }
+        for (gname, kind) in &groups {
+            let fs: Vec<&Form> = forms.iter().filter(|f| c15::kind_of(f) == *kind).collect();
+            let vals = edge_vals(*kind);
+            forms_sweep(ctx, &format!("{}.forms.{}", pass, gname), &fs, &vals);
+        }
+        methods_sweep(ctx, &format!("{}.methods", pass), &cases);
+        parser_sweep(ctx, &format!("{}.parsers", pass), &strings);
+    }
+    ctx.worker_exe = None;
+    ctx.require_classes("mon.forms.int", &["returns", "documented-panic:zero-divisor", "documented-panic:negative-ubig", "documented-panic:gcd-of-zeros"]);
+    ctx.require_classes("mon.forms.float", &["returns", "documented-panic:infinite-operand", "documented-panic:unlimited-precision"]);
+    ctx.require_classes("mon.methods", &["returns", "documented-panic:zeroth-root", "documented-panic:complex-result", "documented-panic:log-domain", "documented-panic:invalid-radix", "documented-panic:different-rings", "documented-panic:unlimited-precision"]);
+    let _ = (DivRem::div_rem(7u8, 2u8), Inverse::inv(RBig::ONE));
 }
